@@ -599,6 +599,15 @@ func programs() []program {
 		a, b := electricpb.NewModel(), electricpb.NewModel()
 		par(func() { a.CreateMode(&traits.ElectricMode{Title: "a"}) }, func() { b.CreateMode(&traits.ElectricMode{Title: "b"}) })
 	})
+	// the same for plain collections with generated ids, and for the two collections inside ONE default model
+	add("collection/two default collections: Add(generated id)||Add(generated id)", func() {
+		a, b := resource.NewCollection(), resource.NewCollection()
+		par(func() { a.Add("", tm(1), resource.WithGenIDIfAbsent()) }, func() { b.Add("", tm(2), resource.WithGenIDIfAbsent()) })
+	})
+	add("vending/one default model: CreateConsumable||CreateStock", func() {
+		v := vendingpb.NewModel()
+		par(func() { v.CreateConsumable(&traits.Consumable{}) }, func() { v.CreateStock(&traits.Consumable_Stock{}) })
+	})
 	add("vending/Dispense||GetStock||List", func() {
 		v := vendingpb.NewModel(vendingpb.WithInitialStock(&traits.Consumable_Stock{Consumable: "milk", Used: &traits.Consumable_Quantity{Unit: traits.Consumable_LITER, Amount: 1}, Remaining: &traits.Consumable_Quantity{Unit: traits.Consumable_LITER, Amount: 9}}))
 		par(func() {
